@@ -171,6 +171,11 @@ def run(ctx):
             edges["iblt-decode-ok-with-missing"] += 1
     need = ["add-prev-missing", "previous-page-state-fallback", "range-first-page", "range-next-two-pages", "chunked-reply", "gossip-queue-full(100 refs)",
             "iblt-decode-failed", "iblt-decode-ok-with-missing", "rejected:err:unknown-conv", "connection-down-or-disconnected", "gossip-with-refs", "tick-without-connection-keeps-queue"]
+    for v in verdicts:
+        for f in v.get("features", []):
+            if f in ("equal-height-large-diff-on-page>=1", "behind-peer-wide-page0", "many-refs-per-clock", "disjoint-branches"):
+                edges["scenario:" + f] += 1
+    need += ["scenario:equal-height-large-diff-on-page>=1", "scenario:behind-peer-wide-page0"]
     missing_edges = [e for e in need if edges[e] == 0] if not ctx.replay else []
     ctx.oblige("generator-reaches-the-protocol-edges(quick tier)", not missing_edges, f"edges not reached: {missing_edges}; reached: {dict(edges)}")
 
